@@ -1,4 +1,79 @@
-//! Engine T: finite compile-time tables, dumped from the real compiler (filled in later).
+//! Engine T: finite compile-time tables dumped from the real compiler.
+//!
+//! `optable`: for every eager binary operator and every pair of non-empty operand kinds drawn from
+//! {integer, float, bytes, boolean, null, timestamp} (63 x 63 x 10), compile `.a OP .b` against an event typed
+//! `{ a: ka, b: kb }` and report whether the compiler calls it fallible and which result kinds it reports.
+use serde_json::json;
+use std::collections::BTreeMap;
+use vrl::compiler::CompileConfig;
+use vrl::compiler::state::ExternalEnv;
+use vrl::prelude::*;
+use vrl::value::kind::Collection;
+
+const SCALARS: [&str; 6] = ["integer", "float", "bytes", "boolean", "null", "timestamp"];
+
+pub fn kind_of(mask: u8) -> Kind {
+    let mut k = Kind::never();
+    if mask & 1 != 0 { k = k.or_integer(); }
+    if mask & 2 != 0 { k = k.or_float(); }
+    if mask & 4 != 0 { k = k.or_bytes(); }
+    if mask & 8 != 0 { k = k.or_boolean(); }
+    if mask & 16 != 0 { k = k.or_null(); }
+    if mask & 32 != 0 { k = k.or_timestamp(); }
+    k
+}
+
+fn mask_of(k: &Kind) -> u8 {
+    let mut m = 0;
+    if k.contains_integer() && !k.is_never() { m |= 1; }
+    if k.contains_float() && !k.is_never() { m |= 2; }
+    if k.contains_bytes() && !k.is_never() { m |= 4; }
+    if k.contains_boolean() && !k.is_never() { m |= 8; }
+    if k.contains_null() && !k.is_never() { m |= 16; }
+    if k.contains_timestamp() && !k.is_never() { m |= 32; }
+    m
+}
+
 pub fn optable() {
-    println!("[]");
+    let fns = vrl::stdlib::all();
+    let ops = ["*", "/", "+", "-", "!=", "==", ">=", ">", "<=", "<"];
+    let mut rows = Vec::new();
+    for op in ops {
+        for ka in 1u8..64 {
+            for kb in 1u8..64 {
+                let mut fields: BTreeMap<vrl::value::kind::Field, Kind> = BTreeMap::new();
+                fields.insert("a".into(), kind_of(ka));
+                fields.insert("b".into(), kind_of(kb));
+                let target = Kind::object(Collection::from(fields));
+                let env = ExternalEnv::new_with_kind(target, Kind::object(Collection::empty()));
+                let src = format!(".a {op} .b");
+                let plain = vrl::compiler::compile_with_external(&src, &fns, &env, CompileConfig::default());
+                let (fallible, result_mask, other) = match plain {
+                    Ok(r) => {
+                        let ti = r.program.final_type_info();
+                        let k = ti.result.kind().clone();
+                        (false, mask_of(&k), k.contains_object() || k.contains_array() || k.contains_regex() || k.contains_undefined())
+                    }
+                    Err(_) => {
+                        // fallible: handle the error with a marker type the operators never produce (an object)
+                        let src2 = format!("(.a {op} .b) ?? {{}}");
+                        match vrl::compiler::compile_with_external(&src2, &fns, &env, CompileConfig::default()) {
+                            Ok(r) => {
+                                let ti = r.program.final_type_info();
+                                let k = ti.result.kind().clone();
+                                (true, mask_of(&k), k.contains_array() || k.contains_regex() || k.contains_undefined())
+                            }
+                            Err(d) => {
+                                let msgs: Vec<String> = d.iter().map(|x| x.message.clone()).collect();
+                                rows.push(json!({"op": op, "ka": ka, "kb": kb, "error": msgs}));
+                                continue;
+                            }
+                        }
+                    }
+                };
+                rows.push(json!({"op": op, "ka": ka, "kb": kb, "fallible": fallible, "result": result_mask, "other": other}));
+            }
+        }
+    }
+    println!("{}", json!({"scalars": SCALARS, "rows": rows}));
 }
